@@ -141,8 +141,8 @@ def main():
                              {"t": t, "off": off, "comps": comps},
                              "recode %d %d %s %s %s %s %s" % (t, max(1, 64 // TSIZE[t]), cls(enc), cls(enc), s1, s2, gdlib.hexs(comps)),
                              "%s %s->%s" % (enc, s1, s2))
-    # C: gd_alter_frameoffset with shifting (text, sie and lzma fragments: observed failures not yet triaged, see notes/C13.md)
-    for enc in ("none", "gzip", "bzip2"):
+    # C: gd_alter_frameoffset with shifting
+    for enc in ENCS:
         for t in rng.sample(types_q, 3):
             for o1 in (0, 1, 3):
                 for o2 in (0, 1, 3):
